@@ -46,7 +46,7 @@ Ints ==
         THEN {Leaf(108, <<251, 255, 255, 255>> \o LE16(5) \o LE16(0) \o LE16(0) \o LE16(0) \o LE16(16), LongTok(1, <<5, 0, 0, 0, 16>>), TRUE), \* -(2^64+5)
               Leaf(105, <<255, 255, 255, 255>>, IntTok(1, <<1>>), TRUE)}
         ELSE {})
-  \cup (IF MV <= 2 THEN {Leaf(73, <<0, 0, 0, 0, 1, 0, 0, 0>>, IntTok(0, <<0, 0, 4>>), TRUE),                 \* 'I' 2^32
+  \cup (IF MV <= 2 THEN {Leaf(73, <<0, 0, 0, 128, 1, 0, 0, 0>>, IntTok(0, <<0, 0, 6>>), TRUE),               \* 'I' 2^32 + 2^31: sign bit of the low word
                           Leaf(73, <<0, 0, 0, 0, 0, 255, 255, 255>>, IntTok(1, <<0, 0, 1024>>), TRUE)}       \* 'I' -(2^40): sign bit of the 64-bit form
         ELSE {})
 Floats ==
@@ -54,9 +54,9 @@ Floats ==
                    \cup (IF Cfg.rich = 1 THEN {Leaf(103, FNZ, [k |-> "float", n |-> 0, b |-> FNZ], TRUE),
                                                Leaf(121, F15 \o FNZ, [k |-> "complex", n |-> 0, b |-> F15 \o FNZ], TRUE)} ELSE {})
               ELSE {})
-  \cup {Leaf(102, <<3, 49, 46, 53>>, [k |-> "floatt", n |-> 0, b |-> <<49, 46, 53>>], TRUE)}            \* 'f' "1.5"
-  \cup (IF Cfg.rich = 1 THEN {Leaf(102, <<4, 45, 48, 46, 48>>, [k |-> "floatt", n |-> 0, b |-> <<45, 48, 46, 48>>], TRUE),   \* "-0.0"
-                              Leaf(120, <<3, 49, 46, 53, 4, 45, 48, 46, 48>>, [k |-> "complext", n |-> 3, b |-> <<49, 46, 53, 32, 45, 48, 46, 48>>], TRUE)}
+  \cup {Leaf(102, <<3, 49, 46, 53>>, [k |-> "floatt", n |-> 0, b |-> <<49, 46, 53>>], TRUE),           \* 'f' "1.5"
+        Leaf(120, <<3, 49, 46, 53, 4, 45, 48, 46, 48>>, [k |-> "complext", n |-> 3, b |-> <<49, 46, 53, 32, 45, 48, 46, 48>>], TRUE)}  \* 'x' "1.5" "-0.0"
+  \cup (IF Cfg.rich = 1 THEN {Leaf(102, <<4, 45, 48, 46, 48>>, [k |-> "floatt", n |-> 0, b |-> <<45, 48, 46, 48>>], TRUE)}   \* "-0.0"
         ELSE {})
 Strings ==
   {Leaf(115, LE32(2) \o <<255, 0>>, TB(StrKind, <<255, 0>>), TRUE),
